@@ -216,7 +216,9 @@ def r3_approach_only_readonly(ctx):
               "the contact_point accessor is not the fitted contact point")
 
 
-def r4_order(ctx):
+def names_sorted(ctx):
+    """every return of get_feature_names is preceded by the unconditional
+    final `sorted()` of the returned list (shared with C15)"""
     m, meths, feats = _feats(ctx)
     gn = meths["get_feature_names"]
     ctx.analysed(gn)
@@ -246,6 +248,11 @@ def r4_order(ctx):
                   "get_feature_names can return the names unsorted (e.g. "
                   "for a list-valued which_type): feature columns of "
                   "training set, rater and rating no longer line up")
+
+
+def r4_order(ctx):
+    names_sorted(ctx)
+    m, meths, feats = _feats(ctx)
     # compute_features: iterates the list it returns
     cf = meths["compute_features"]
     ctx.analysed(cf)
@@ -350,11 +357,86 @@ def r5_ranges(ctx):
                           f"{name}: v in log(1 + v) is not provably "
                           "non-negative: the magnitude feature can become "
                           "negative or NaN for valid curves")
-        if not logs:
-            ctx.ok(f, f"{name}: no logarithmic magnitude (fraction feature)")
+        # the value that leaves the feature
+        outs = []
+        for r in rets:
+            if isinstance(r.value, ast.Name):
+                vs = R.reaching_values(r.value)
+                if vs is None:
+                    raise Undecided(f"{name}: returned value is not built "
+                                    "by plain assignments")
+                outs.extend(vs)
+            elif r.value is not None:
+                outs.append(r.value)
+        outs = [v for v in outs if norm(v) not in ("np.nan", "numpy.nan")]
+        ctx.floor(f"{name}: non-NaN results", len(outs), 1)
+        if name in SIGNED:
+            ctx.ok(f, f"{name}: signed by design ({SIGNED[name]})")
+            continue
+        for v in outs:
+            if name in FRACTIONS:
+                ok = _fraction_shape(v, R, f)
+                ctx.check(ok, v, f"{name}: {norm(v)[:40]} is a/(a+b) or "
+                          "1 - count/size",
+                          f"fraction feature {name} is no longer a "
+                          f"part-of-whole ratio ({norm(v)[:60]}): it can "
+                          f"leave [0, 1]")
+            else:
+                ctx.check(_nonneg(v, R, f), v,
+                          f"{name}: result {norm(v)[:40]} is non-negative",
+                          f"magnitude feature {name} returns "
+                          f"{norm(v)[:70]}, which is not provably "
+                          f"non-negative when the approach force reaches "
+                          f"positive values (e.g. normalised by a single "
+                          f"sample instead of the maximum force)")
 
 
 FORCE_ACCESSORS = ("self.datay_apr",)
+SIGNED = {"feat_con_cp_curvature": "log magnitude times the sign of the "
+          "curvature"}
+FRACTIONS = ("feat_con_apr_flatness", "feat_con_apr_size")
+
+
+def _fraction_shape(v, R, f):
+    """a/(a+b) with a, b >= 0, or 1 - count(mask over x)/size(x)"""
+    v = R.build(v) if hasattr(v, "_parent") else v
+    if isinstance(v, ast.BinOp) and isinstance(v.op, ast.Div):
+        den = v.right
+        if isinstance(den, ast.BinOp) and isinstance(den.op, ast.Add):
+            a = norm(v.left)
+            sides = [den.left, den.right]
+            if a in (norm(sides[0]), norm(sides[1])):
+                return all(_nonneg_built(x) for x in sides)
+        return False
+    if isinstance(v, ast.BinOp) and isinstance(v.op, ast.Sub) and \
+            norm(v.left) == "1" and isinstance(v.right, ast.BinOp) and \
+            isinstance(v.right.op, ast.Div):
+        cnt, size = v.right.left, v.right.right
+        if not (isinstance(cnt, ast.Call) and (call_name(cnt) or "").split(
+                ".")[-1] in ("sum", "count_nonzero") and cnt.args
+                and isinstance(cnt.args[0], ast.Compare)):
+            return False
+        arr = norm(cnt.args[0].left)
+        return norm(size) in (f"{arr}.shape[0]", f"{arr}.size",
+                              f"len({arr})")
+    return False
+
+
+def _nonneg_built(x):
+    """sign of a fully resolved expression: counts and sums of masks/abs"""
+    if isinstance(x, ast.Call):
+        short = (call_name(x) or "").split(".")[-1]
+        if short in ("abs", "absolute", "count_nonzero", "len"):
+            return True
+        if short in ("sum", "nansum", "mean") and x.args:
+            a = x.args[0]
+            return isinstance(a, ast.Compare) or _nonneg_built(a)
+    if isinstance(x, ast.Constant):
+        return isinstance(x.value, (int, float)) and x.value >= 0
+    if isinstance(x, ast.BinOp) and isinstance(x.op, (ast.Add, ast.Mult,
+                                                     ast.Div)):
+        return _nonneg_built(x.left) and _nonneg_built(x.right)
+    return False
 
 
 def _is_force(expr, R, depth=0):
@@ -399,7 +481,8 @@ def _nonneg(expr, R, f, depth=0):
             not cn.startswith(("np.", "numpy.")) else None
         arg0 = recv if recv is not None else (expr.args[0] if expr.args
                                               else None)
-        if short in ("abs", "absolute", "std", "nanstd", "var", "sqrt"):
+        if short in ("abs", "absolute", "std", "nanstd", "var", "sqrt",
+                     "count_nonzero"):
             return True
         if short in ("max", "nanmax", "amax") and arg0 is not None and \
                 _is_force(arg0, R):
